@@ -32,3 +32,4 @@ run N12_writers_wrap_loop_shared_tail C10 C11
 run N13_record_views_seq_lines_windows C13 C20
 run N14_error_display_impls C17
 git -C /repo status --short | head -3
+run N15_parallel_imports C07 C16
